@@ -7,6 +7,7 @@ package parser
 //@ spec spacesUpTo(t string, k int) int = ite(k <= 0, 0, spacesUpTo(t, k-1) + wsWeight(t[k-1]))
 
 //@ func calcSpaces
+//@   structure uses-only-globals
 //@   ensures [sum] result == spacesUpTo(text, len(text))
 //@   ensures [nonneg] result >= 0
 //@   loop 0 invariant [range] 0 <= i && i <= len(text)
@@ -78,6 +79,7 @@ package parser
 //@   assert @setfield:F.parser.lexerState.spaces [recorded-width-is-zero-or-measured-by-calcSpaces] stored == 0 || ghost("measured")
 
 //@ func getNextToken
+//@   structure uses-only-globals syslLexerLog,lexerStates
 //@   requires l != nil && l.BaseLexer != nil
 //@   requires [inv] lexInv(ls(l))
 //@   ensures [inv] lexInv(ls(l))
@@ -174,3 +176,8 @@ package parser
 //@   modifies nothing
 //@   assert @call:github.com/antlr/antlr4/runtime/Go/antlr.NewParserATNSimulator [own-structures] fresh(arg1) && fresh(arg2) && fresh(arg3)
 //@   ensures [fresh-instance] result != nil && fresh(result) && result.Interpreter != nil && fresh(result.Interpreter)
+
+// The hand-written lexer helpers answer from their arguments, the state of the lexer they are asked for and the
+// constant keyword table: they mention no other package-level variable (no memo table or cache shared between lexers).
+//@ func startsWithKeyword
+//@   structure uses-only-globals keywords
